@@ -125,9 +125,6 @@ func (o *c13Orc) add(s string) {
 }
 
 func (o *c13Orc) unify(tys []cty.Type) cty.Type {
-	if len(tys) == 0 {
-		return cty.NilType
-	}
 	var r cty.Type
 	if p, _ := try(func() { r, _ = convert.UnifyUnsafe(tys) }); p {
 		return cty.NilType
@@ -828,6 +825,10 @@ func c13GenArgs(ctx *Ctx, name string, o ValOpts) []cty.Value {
 			}
 			if t == cty.DynamicPseudoType {
 				args[i] = top(cty.SetValEmpty(t))
+				if o.Unknown && r.Intn(3) == 0 {
+					// a non-empty set(dynamic): its only possible members are DynamicVal and null
+					args[i] = top(cty.SetVal([]cty.Value{cty.DynamicVal}))
+				}
 			} else {
 				args[i] = top(c13Seq(ctx, "s", t, 4, o))
 			}
